@@ -16,6 +16,7 @@ from .sink import (
   ClientMessageSink,
   ClientMessageSinkStack
 )
+from .timer_queue import GLOBAL_TIMER_QUEUE
 from .varz import (
   Rate,
   Source,
@@ -171,12 +172,41 @@ class MessageDispatcher(ClientMessageSink):
     if self._open_ar.ready():
       return self._DispatchMethod(method, args, kwargs, timeout, start_time)
     else:
-      # _DispatchMethod returns an AsyncResult, so we end up with an
-      # AsyncResult<AsyncResult<TRet>>, Unwrap() removes one layer, yielding
-      # an AsyncResult<TRet>
-      return self._open_ar.ContinueWith(
-          lambda ar: self._DispatchMethod(method, args, kwargs, timeout, start_time)
-      ).Unwrap()
+      # The call has to wait for the open to complete.  Until then nothing
+      # else enforces its deadline, so do it here.
+      ret = AsyncResult()
+      cancel_timeout = None
+      if timeout:
+        def _on_open_wait_timeout():
+          if not ret.ready():
+            ret.set_exception(TimeoutError())
+        cancel_timeout = GLOBAL_TIMER_QUEUE.Schedule(
+            start_time + timeout, _on_open_wait_timeout)
+
+      def _propagate(ar):
+        if ret.ready():
+          return
+        if ar.exception:
+          ret.set_exception(ar.exception)
+        else:
+          ret.set(ar.value)
+
+      def _on_open_done(_):
+        if cancel_timeout:
+          cancel_timeout()
+        if ret.ready():
+          # Timed out while waiting for the open, the call is never sent.
+          return
+        try:
+          call_ar = self._DispatchMethod(
+              method, args, kwargs, timeout, start_time)
+        except Exception as ex:
+          ret.set_exception(ex)
+          return
+        call_ar.rawlink(_propagate)
+
+      self._open_ar.rawlink(_on_open_done)
+      return ret
 
   @staticmethod
   def StaticDispatchMessage(sink, source, start_time, deadline, disp_msg):
